@@ -729,7 +729,10 @@ def _run_arrangles(case, ck):
     call neither changes them nor depends on having been made before"""
     from holopy.core.math import rotation_matrix
     acc = []
-    for deg in ((30.0, 45.0, 60.0), (10.0, 0.0, 350.0)):
+    for deg in ((30.0, 45.0, 60.0), (10.0, 0.0, 350.0),
+                # quarter turns and their multiples, both senses
+                (270.0, 90.0, -270.0), (630.0, 180.0, -90.0),
+                (-630.0, 270.0, 450.0)):
         ref = euler_zyz(*[math.radians(v) for v in deg])
         for form in ("0-d float array", "0-d int array", "np.float64",
                      "np.int64", "np.int8", "np.uint8", "np.int16",
